@@ -5,8 +5,8 @@
 //
 //	new pap|chap|other radius|noradius
 //	start | reauth | age <seconds> | setid <n>
-//	pap  <id> u<k> good|bad|empty        accept|reject|down|verify
-//	chap <id> u<k> match|nomatch|short   accept|reject|down|verify
+//	pap  <id> u<k> good|bad|empty        accept|reject|down|challenge|verify
+//	chap <id> u<k> match|nomatch|short   accept|reject|down|challenge|verify
 //	     => ret=ok|err sent=<packets|-> state=<None|Pending|Success|Failure> user=<u<k>|-> cb=<PAP+|PAP-|CHAP+|CHAP-|-> rad=<requests|->
 //
 // packets: ACK:<id>:<msg> NAK:<id>:<msg> CHAL:<id>:<len>:fresh|repeat SUCC:<id>:<msg> FAIL:<id>:<msg>
@@ -14,8 +14,10 @@
 //
 //	(p = the password of this op, r = the response value of this op, c = the outstanding challenge value)
 //
-// RADIUS modes: accept / reject = unconditional answer, down = no answer, verify = an honest server: accepts iff the
-// credentials in the request verify against its user table (every user's password / CHAP secret is "right").
+// RADIUS modes: accept / reject = unconditional answer, down = no answer (the client times out: costs radTimeout, so the
+// generator uses it sparingly), challenge = the server answers Access-Challenge, which the client reports as an error at
+// once (the cheap way into the "RADIUS error" branch), verify = an honest server: accepts iff the credentials in the
+// request verify against its user table (every user's password / CHAP secret is "right").
 package main
 
 import (
@@ -42,6 +44,9 @@ import (
 type comp struct{}
 
 const secretOfUsers = "right"
+
+// generous: an answer that is merely late on a loaded machine must not look like "no answer"
+const radTimeout = 600 * time.Millisecond
 
 // what one Access-Request carried
 type radReq struct {
@@ -118,6 +123,8 @@ func (r *radSrv) loop() {
 			resp = pkt.Response(radius.CodeAccessAccept)
 		case "reject":
 			resp = pkt.Response(radius.CodeAccessReject)
+		case "challenge":
+			resp = pkt.Response(radius.CodeAccessChallenge)
 		case "verify":
 			if verifyCreds(q) {
 				resp = pkt.Response(radius.CodeAccessAccept)
@@ -298,7 +305,7 @@ func chapResp(id uint8, name string, value []byte) []byte {
 
 func (r *run) setMode(m string) bool {
 	switch m {
-	case "accept", "reject", "down", "verify":
+	case "accept", "reject", "down", "challenge", "verify":
 	default:
 		return false
 	}
@@ -338,7 +345,7 @@ func (r *run) Do(op string) string {
 			var err error
 			cl, err = bngradius.NewClient(bngradius.ClientConfig{
 				Servers: []bngradius.ServerConfig{{Host: "127.0.0.1", Port: port, Secret: "s3cret"}},
-				NASID:   "verif", Timeout: 25 * time.Millisecond, Retries: 1,
+				NASID:   "verif", Timeout: radTimeout, Retries: 1,
 			}, zap.NewNop())
 			if err != nil {
 				return "error " + err.Error()
@@ -454,7 +461,18 @@ func (r *run) Do(op string) string {
 
 // ---------------------------------------------------------------- generator
 
-var modesRad = []string{"accept", "accept", "reject", "reject", "verify", "verify", "down"}
+var modesRad = []string{"accept", "accept", "accept", "reject", "reject", "reject", "verify", "verify", "verify", "challenge"}
+
+// real timeouts are expensive: a budget per generator run
+var downBudget int
+
+func pickMode(rg *rand.Rand) string {
+	if downBudget > 0 && rg.Intn(400) == 0 {
+		downBudget--
+		return "down"
+	}
+	return hx.Pick(rg, modesRad)
+}
 
 // shadow of the authenticator's CHAP identifier kept by the generator (an approximation: it only steers the
 // choice of identifiers towards the interesting ones, the observations never depend on it)
@@ -467,7 +485,7 @@ type shadow struct {
 func randOp(rg *rand.Rand, useRad bool, sh *shadow) string {
 	mode := "accept"
 	if useRad {
-		mode = hx.Pick(rg, modesRad)
+		mode = pickMode(rg)
 	}
 	user := hx.Pick(rg, []string{"u1", "u1", "u2"})
 	switch x := rg.Intn(100); {
@@ -540,8 +558,10 @@ func rateLimitSeq(rg *rand.Rand) []string {
 
 func (comp) Gen(rg *rand.Rand, tier string, emit func([]string)) {
 	n, nrl, depth := 2500, 150, 3
+	downBudget = 6
 	if tier == "thorough" {
 		n, nrl, depth = 40000, 1500, 4
+		downBudget = 60
 	}
 	exhaustive(emit, depth)
 	for i := 0; i < nrl; i++ {
@@ -579,7 +599,7 @@ func exhaustive(emit func([]string), depth int) {
 				"chap 0 u1 match accept", "chap 1 u1 match accept", "chap 1 u1 nomatch accept", "chap 2 u1 match accept"}
 			if rad == "radius" {
 				alpha = append(alpha,
-					"pap 1 u1 good reject", "pap 1 u1 bad verify",
+					"pap 1 u1 good reject", "pap 1 u1 bad verify", "pap 1 u1 good challenge",
 					"chap 1 u1 match reject", "chap 1 u1 match verify", "chap 1 u1 nomatch verify", "chap 0 u1 match verify")
 			}
 			var rec func(prefix []string, d int)
